@@ -759,7 +759,7 @@ def unparse(t) -> str:
     if k == "bool":
         return "TRUE" if t[1] else "FALSE"
     if k == "param":
-        v = t[2]
+        v = t[-1]
         if v is None:
             return "NULL"
         if isinstance(v, bool):
